@@ -334,7 +334,7 @@ func runQueries(k *mon.Case) {
 	r := k.Rand
 	fam := []string{node.FamRegtest, node.FamVarWork}[r.Intn(2)]
 	g := chaingen.New(node.NewParams(fam), fam, r)
-	s, err := sim.New(k, g, node.Config{UtxoCacheMaxSize: 1 << 26})
+	s, err := sim.New(k, g, node.Config{UtxoCacheMaxSize: 1 << 25})
 	if err != nil {
 		k.Failf("harness:open", "cannot open node: %v", err)
 		return
@@ -381,7 +381,7 @@ func runHeadersFirst(k *mon.Case) {
 	fam := []string{node.FamRegtest, node.FamVarWork}[r.Intn(2)]
 	g := chaingen.New(node.NewParams(fam), fam, r)
 	g.MaxTx = 2
-	s, err := sim.New(k, g, node.Config{UtxoCacheMaxSize: []uint64{0, 1 << 26}[r.Intn(2)]})
+	s, err := sim.New(k, g, node.Config{UtxoCacheMaxSize: []uint64{0, 1 << 25}[r.Intn(2)]})
 	if err != nil {
 		k.Failf("harness:open", "cannot open node: %v", err)
 		return
